@@ -31,6 +31,9 @@ def check(model, tier):
     merge.r05_6_who_may_elide(ctx)
     expressions.r13_1_as_trivial(ctx, rule="R05.7")
     expressions.r12_3_connectives(ctx, rule="R05.8")
+    from ..rules import mergeeval as _mergeeval
+
+    _mergeeval.r05_9_merge_semantics(ctx)
     from ..rules import structure as _structure
 
     _structure.r14_5_noop_identity(ctx)  # an elided operation returns the target itself, in the target's own engine
